@@ -71,6 +71,16 @@ def gen_partial():
         # change_count is the first byte
         cnt = [n for n in ast.walk(fn) if isinstance(n, ast.Assign) and ast.unparse(n.targets[0]) == "change_count"][0]
         out.append(f"def countIsFirstByte{tag} : Bool := {'true' if 'remainder[0:1]' in ast.unparse(cnt.value) and chr(62)+'B' in ast.unparse(cnt.value) else 'false'}\n")
+    # the threaded client reads datagrams into a buffer of this many bytes (a longer datagram is truncated by the OS)
+    tree_s = T.parse("driver/udp_socket.py")
+    sizes = [st.value.value for cls_ in tree_s.body if isinstance(cls_, ast.ClassDef) and cls_.name == "GeckoUdpSocket"
+             for st in cls_.body if isinstance(st, ast.Assign) and ast.unparse(st.targets[0]) == "_MAX_PACKET_SIZE"
+             and isinstance(st.value, ast.Constant) and isinstance(st.value.value, int)]
+    fn_r = find_function(tree_s, "GeckoUdpSocket._process_received_data")
+    reads = [n for n in ast.walk(fn_r) if isinstance(n, ast.Call) and isinstance(n.func, ast.Attribute) and n.func.attr == "recvfrom"]
+    if len(sizes) != 1 or len(reads) != 1 or ast.unparse(reads[0].args[0]) != "self._MAX_PACKET_SIZE":
+        raise Untranslatable("udp_socket.py: expected one `_MAX_PACKET_SIZE = <int>` and one `recvfrom(self._MAX_PACKET_SIZE)`")
+    out.append(f"/-- udp_socket.py: `self._socket.recvfrom(self._MAX_PACKET_SIZE)` -/\ndef recvBufferSize : Nat := {sizes[0]}\n")
     # the threaded client's callback: apply all, then clear in the for...else
     tree2 = T.parse("spa.py")
     fn = find_function(tree2, "GeckoSpa._on_partial_status_update")
